@@ -109,6 +109,12 @@ func checkC08(w *World, r *Recorder) propInfo {
 			ruleResultFresh(w, r, "C08-G4", fn, n, 0)
 		}
 	}
+	// G5: "accepted by the validating decoder" and "decoded, then validated" are
+	// the same verdict only if which profile a JSON document is decoded under is
+	// a function of the document: selection inside the register loop is under
+	// name equality and conflicting matches are an error (C16-N4 run again under
+	// this property) — not whichever entry the map iteration reaches last
+	importRules(w, r, checkC16, "C08-G5", func(o *Oblig) bool { return o.Rule == "C16-N4" })
 	r.Floor("C08-G1", 8)
 	r.Floor("C08-G2", 8)
 	r.Floor("C08-G3", 7)
